@@ -132,7 +132,7 @@ def check(prop, tier, seed, replay=None, repo=None, quiet=False):
     clauses, clause_fail, classes, notes, sensors = C(), C(), C(), C(), C()
     sets = collections.defaultdict(set)
     nontrivial = set()
-    violations, samples, harness_errors = [], [], []
+    violations, samples, harness_errors, hangs = [], [], [], []
     cases = evaluations = n_viol = 0
     viol_by_key = C()
     per_case = collections.defaultdict(dict)
@@ -146,6 +146,7 @@ def check(prop, tier, seed, replay=None, repo=None, quiet=False):
         violations.extend(r["violations"]); n_viol += r["n_viol"]; viol_by_key.update(r["viol_by_key"])
         cases += r["cases"]; evaluations += r["evaluations"]
         harness_errors.extend(r["harness_errors"])
+        hangs.extend(r.get("hangs", []))
         hashseeds.add(str(r["hashseed"]))
         for k, d in r["results"].items():
             per_case[k][str(r["hashseed"])] = d
@@ -195,6 +196,9 @@ def check(prop, tier, seed, replay=None, repo=None, quiet=False):
             reasons.append("worker failures: %s" % failures[:2])
         if harness_errors:
             reasons.append("harness errors: %s" % harness_errors[:2])
+        if hangs:
+            reasons.append("%d case(s) did not finish within twice the per-case budget (wall clock, so not a verdict): %s" % (
+                len(hangs), json.dumps(strict_json(hangs[0]))[:600]))
         if not replay:
             for cl in getattr(mod, "REQUIRED", []):
                 if clauses.get(cl, 0) == 0:
